@@ -4,6 +4,7 @@ import Ecal.Lemmas.PriorityHeapPush
 import Ecal.Lemmas.PriorityCascade
 import Ecal.Lemmas.PriorityValid
 import Ecal.Gen.C10
+import Ecal.Model.PriorityConc
 /-!
 # C10 — priorities order execution; the first failing rule ends a trigger sequence
 
@@ -541,6 +542,62 @@ theorem accepted_trace_pops_are_min (pre post : List QEv) (root mon : Nat)
       · simp at h
     · simp at h
 
+/-- `TaskQueue` histories **with workers**: any adder pushes, any worker `w` takes from the root its
+    pop happens to serve; the log records for every take the worker, the root, the item taken and
+    what was queued for that root at that moment (newest first) -/
+inductive ReachableW : TQ → List (Nat × Nat × Item × List Item) → Prop where
+  | empty : ReachableW [] []
+  | push {t log} (root val : Nat) (prio : Int) : ReachableW t log → ReachableW (t.push root val prio) log
+  | take {t t' log} (w root : Nat) (m : Item) : ReachableW t log → t.pop root = some (m, t') →
+      ReachableW t' ((w, root, m, (t.get root).items) :: log)
+
+theorem reachableW_forget {t : TQ} {log : List (Nat × Nat × Item × List Item)} (h : ReachableW t log) :
+    ReachableTQ t := by
+  induction h with
+  | empty => exact .empty
+  | push root val prio _ ih => exact .push root val prio ih
+  | take w root m _ hp ih => exact .pop ih hp
+
+/-- **Whichever worker takes an event, it takes the least one of that cascade**: for every take in
+    every history — any number of workers, any interleaving with pushes and with takes of other
+    workers — the item taken was queued for its root, nothing queued for that root preceded it,
+    and every other item queued for that root comes strictly after it. -/
+theorem every_worker_takes_the_least {t : TQ} {log : List (Nat × Nat × Item × List Item)}
+    (h : ReachableW t log) :
+    ∀ w root m queued, (w, root, m, queued) ∈ log →
+      m ∈ queued ∧
+      (∀ x ∈ queued, ¬ x.prio < m.prio ∧ ¬ (x.prio = m.prio ∧ x.seq < m.seq)) ∧
+      (∀ x ∈ queued, x ≠ m → m.prio < x.prio ∨ (m.prio = x.prio ∧ m.seq < x.seq)) := by
+  induction h with
+  | empty => intro w root m queued hm; simp at hm
+  | push root val prio _ ih => exact ih
+  | @take t t' log w0 root0 m0 hprev hp ih =>
+    intro w root m queued hm
+    rcases List.mem_cons.mp hm with heq | hm
+    · cases heq
+      have hr := reachableW_forget hprev
+      obtain ⟨h1, h2, h3, _⟩ := several_workers_pop_is_min hr hp
+      refine ⟨h1, h2, ?_⟩
+      intro x hx hne
+      apply h3
+      -- what is left for the root is the queue without the item taken
+      unfold TQ.pop at hp
+      split at hp
+      · cases hp
+      · rename_i m' q' hpop
+        cases hp
+        rw [tq_get_set_same]
+        obtain ⟨_, _, he, _⟩ := pop_is_min _ _ _ hpop
+        rw [he]
+        have hnd : (t.get root0).items.Nodup :=
+          (reachable_wf (reachableTQ_get hr root0)).1.imp (by intro a b hab e; subst e; omega)
+        exact hnd.mem_erase_iff.mpr ⟨hne, hx⟩
+    · exact ih w root m queued hm
+
+/-- non-vacuity: worker 7 takes from root 1 while priority 3 (queued first) and 0 are queued: it gets the 0 -/
+example : ∃ t log, ReachableW t log ∧ log.map (fun e => (e.1, e.2.2.1.val)) = [(7, 11)] :=
+  ⟨_, _, .take 7 1 _ (.push 1 11 0 (.push 1 10 3 .empty)) rfl, rfl⟩
+
 /-! ### the validator for runs with free tie order -/
 
 /-- **The validator accepts exactly the runs of the rule loop under some admissible sort** (rules
@@ -906,6 +963,135 @@ theorem highestPriority_int (ops : List Op) (s : RM) (hr : run current {} ops = 
         rw [hall m hm] at ha; cases ha
     · intro _
       exact ⟨⟨m, hm, ha, hp⟩, hle⟩
+
+/-! ### several workers: every interleaving of atomic bookkeeping steps -/
+
+section concurrent
+open Conc
+
+theorem run_snoc (cfg : Cfg) : ∀ (ops : List Op) (s : RM) (op : Op),
+    run cfg s (ops ++ [op]) = (run cfg s ops).bind (fun s' => step cfg s' op)
+  | [], s, op => by
+    simp only [List.nil_append, run, Option.bind_some]
+    cases step cfg s op <;> rfl
+  | o :: ops, s, op => by
+    simp only [List.cons_append, run]
+    cases step cfg s o with
+    | none => rfl
+    | some s1 => exact run_snoc cfg ops s1 op
+
+/-- **Linearisation.** Whatever the schedule, the shared root-monitor state is the state after a
+    *sequential* call sequence: the calls performed so far, in the order in which they took the
+    lock (the ghost log `hist`). -/
+theorem interleaving_is_a_sequence {P : List (List Act)} {c : Sys} (h : Reach P c) :
+    run current {} (c.hist.reverse.map (·.2)) = some c.shared := by
+  induction h with
+  | init => rfl
+  | step _ hs ih =>
+    cases hs with
+    | call hp hstep =>
+      simp only [List.reverse_cons, List.map_append, List.map_cons, List.map_nil]
+      rw [run_snoc, ih]
+      exact hstep
+    | read hp => exact ih
+
+/-- … and that sequence respects every worker's program order: what worker `w` has performed,
+    followed by the calls it still has to make, is the call sequence of its program; no worker
+    appears or disappears. -/
+theorem program_order_kept {P : List (List Act)} {c : Sys} (h : Reach P c) :
+    c.progs.length = P.length ∧
+    ∀ w, doneBy c w ++ callsOf (c.progs[w]?.getD []) = callsOf (P[w]?.getD []) := by
+  induction h with
+  | init => exact ⟨rfl, fun w => by simp [doneBy]⟩
+  | @step c c' _ hs ih =>
+    obtain ⟨hlen, hw⟩ := ih
+    cases hs with
+    | @call w0 op rest s' hp hstep =>
+      refine ⟨by simp [hlen], ?_⟩
+      intro w
+      have hw0 : w0 < c.progs.length := (List.getElem?_eq_some_iff.mp hp).1
+      by_cases hww : w = w0
+      · subst hww
+        have hold := hw w
+        rw [hp] at hold
+        simp only [Option.getD_some, callsOf] at hold
+        simp only [doneBy, List.reverse_cons, List.filter_append, List.map_append] at hold ⊢
+        simp only [List.getElem?_set_self hw0, Option.getD_some]
+        rw [← hold]
+        simp
+      · have hold := hw w
+        have hne : (w0 == w) = false := by simpa using fun e => hww e.symm
+        simp only [doneBy, List.reverse_cons, List.filter_append, List.map_append] at hold ⊢
+        rw [List.getElem?_set_ne (fun e => hww e.symm)]
+        rw [← hold]
+        simp [hne]
+    | @read w0 rest hp =>
+      refine ⟨by simp [hlen], ?_⟩
+      intro w
+      have hw0 : w0 < c.progs.length := (List.getElem?_eq_some_iff.mp hp).1
+      by_cases hww : w = w0
+      · subst hww
+        have hold := hw w
+        rw [hp] at hold
+        simp only [Option.getD_some, callsOf] at hold
+        simp only [doneBy] at hold ⊢
+        simp only [List.getElem?_set_self hw0, Option.getD_some]
+        exact hold
+      · have hold := hw w
+        simp only [doneBy] at hold ⊢
+        rw [List.getElem?_set_ne (fun e => hww e.symm)]
+        exact hold
+
+/-- **`HighestPriority` is exact under every interleaving** of any number of workers, each running
+    any program of `NewChildMonitor` / `Activate` / `Skip` / `Finish` calls and reads, each action
+    one atomic step (the lock sections of monitor.go): in every reachable state the heap root is
+    the least priority of the monitors activated by a triggering event and not finished, and the
+    heap is empty iff there is none. (The sequential theorem `highest_priority_exact` lifted over
+    the linearisation `interleaving_is_a_sequence`.) -/
+theorem highest_priority_exact_concurrent {P : List (List Act)} {c : Sys} (h : Reach P c) :
+    (highest? c.shared = none ↔ ∀ m ∈ c.shared.mons, m.active = false) ∧
+    (∀ p, highest? c.shared = some p →
+      (∃ m ∈ c.shared.mons, m.active = true ∧ m.prio = p) ∧
+      ∀ m ∈ c.shared.mons, m.active = true → p ≤ m.prio) :=
+  highest_priority_exact _ _ (interleaving_is_a_sequence h)
+
+/-- **Every value any worker ever reads is exact at the moment of the read**: each entry `(w, v)` of
+    the read log is `HighestPriority()` of a reachable system state `c₀` (the state in which worker
+    `w` held the lock), for which `highest_priority_exact_concurrent` holds; for priorities ≥ 0
+    this is the integer statement: `v = -1` iff no monitor was active then, otherwise `v` is the
+    least active priority. -/
+theorem every_read_is_exact {P : List (List Act)} {c : Sys} (h : Reach P c) :
+    ∀ w v, (w, v) ∈ c.reads → ∃ c₀, Reach P c₀ ∧ v = highestPriority c₀.shared ∧
+      ((∀ m ∈ c₀.shared.mons, 0 ≤ m.prio) →
+        (v = -1 ↔ ∀ m ∈ c₀.shared.mons, m.active = false) ∧
+        ((∃ m ∈ c₀.shared.mons, m.active = true) →
+          (∃ m ∈ c₀.shared.mons, m.active = true ∧ m.prio = v) ∧
+          ∀ m ∈ c₀.shared.mons, m.active = true → v ≤ m.prio)) := by
+  induction h with
+  | init => intro w v hm; simp at hm
+  | @step c c' hc hs ih =>
+    cases hs with
+    | call hp hstep => exact ih
+    | @read w0 rest hp =>
+      intro w v hm
+      simp only [List.mem_cons, Prod.mk.injEq] at hm
+      rcases hm with ⟨rfl, rfl⟩ | hm
+      · refine ⟨c, hc, rfl, ?_⟩
+        intro hnn
+        exact highestPriority_int _ _ (interleaving_is_a_sequence hc) hnn
+      · exact ih w v hm
+
+/-- non-vacuity: two workers — one activates a monitor of priority 3 and finishes it, the other
+    activates one of priority 1 and reads; in the schedule below the reader sees 1 while both are
+    active (another schedule lets it see 1 after the first has finished: also exact) -/
+example : ∃ c, Reach [[.call (.newChild 3), .call (.activate 1), .call (.finish 1)],
+                      [.call (.newChild 1), .call (.activate 2), .read]] c ∧ c.reads = [(1, 1)] := by
+  refine ⟨_, .step (.step (.step (.step (.step .init
+    (.call (w := 0) rfl rfl)) (.call (w := 0) rfl rfl)) (.call (w := 1) rfl rfl))
+    (.call (w := 1) rfl rfl)) (.read (w := 1) rfl), ?_⟩
+  decide
+
+end concurrent
 
 /-- `NewChildMonitor(p)` followed by `Activate` for consecutive monitors `start, start+1, …` -/
 def activateAll (ps : List Int) (start : Nat) : List Op :=
